@@ -242,10 +242,12 @@ def compare_items(ctx, ob, impl_ys, model_ys, spec_items, before, outer, inner, 
             ctx.disagree(sg + 'target_not_of_dumps', case, y['target'], stargets,
                          'yielded target is not a target of the dumps shown')
             ok = False
-        elif y['target'] != sfirst:
-            # documented as "first target associated with compound scan": the code yields the lowest-numbered one
+        elif y['target'] != sfirst and it == 'compscans':
+            # documented as "first target associated with compound scan" (C03-F2, repaired in katdal: C03_yield_values,
+            # clause w = WCompscans); scans() documents "target associated with scan" and yields the lowest-numbered one
             ctx.disagree('iter=%s;symptom=target_not_first_in_time' % it, case, y['target'], sfirst,
-                         '%s() yields the lowest-numbered target of the item, not its first target in time' % it)
+                         '%s() does not yield the first target of the item in time order' % it)
+            ok = False
     return ok
 
 
@@ -475,6 +477,10 @@ def run_body_case(ctx, ob, history, outer, cls, body, brk, how, cid, note=True, 
                 ok = False
             if y['target'] not in sp[3]:
                 ctx.disagree(bs('target_not_of_dumps'), case, y['target'], sp[3], 'yielded target is not a target of the dumps shown')
+                ok = False
+            elif outer == 'compscans' and y['target'] != sp[2]:
+                ctx.disagree(bs('target_not_first_in_time'), case, y['target'], sp[2],
+                             'compscans() does not yield the first target of the compound scan in time order')
                 ok = False
     if brk is None or ab is None:
         # ---- exhaustion
